@@ -1151,6 +1151,9 @@ func (p *printer) printNode(node any) error {
 
 	// format node
 	switch n := node.(type) {
+	case *ast.ForPhraseStmt:
+		// (a ForPhraseStmt embeds a ForPhrase and so also satisfies ast.Expr)
+		p.stmt(n, false)
 	case ast.Expr:
 		p.expr(n)
 	case ast.Stmt:
